@@ -1,59 +1,41 @@
 package main
 
 import (
+	"encoding/json"
 	"fmt"
-	"time"
+	"os"
 
-	corev1 "k8s.io/api/core/v1"
-
-	"verif/mc/maporder"
 	"verif/mc/schedrun"
 	"verif/mc/world"
 )
 
+// smoke <replay.json>: runs one default cycle on the replay's world and prints decisions / panic.
 func main() {
-	w := &world.World{PriorityClasses: world.StdPriorityClasses()}
-	w.Nodes = append(w.Nodes, world.MkNode(world.NodeOpt{Name: "n1", GPUs: 2, GPUMemMiB: 40000}))
-	w.Queues = append(w.Queues, world.GQueue("dept", "", -1, -1, 1), world.GQueue("qa", "dept", 1, -1, 1), world.GQueue("qb", "dept", 1, -1, 1))
-	w.PodGroups = append(w.PodGroups,
-		world.MkPodGroup(world.PGOpt{Name: "a", Queue: "qa", MinMember: 1, PriorityClass: "p50", Rank: 1}),
-		world.MkPodGroup(world.PGOpt{Name: "b", Queue: "qa", MinMember: 1, PriorityClass: "p50", Rank: 2}),
-		world.MkPodGroup(world.PGOpt{Name: "c", Queue: "qb", MinMember: 1, PriorityClass: "p50", Rank: 3}))
-	w.Pods = append(w.Pods,
-		world.MkPod(world.PodOpt{Name: "a0", Group: "a", Shape: world.Shape{GPUs: 1}, Rank: 1, Phase: corev1.PodRunning, Node: "n1"}),
-		world.MkPod(world.PodOpt{Name: "b0", Group: "b", Shape: world.Shape{GPUs: 1}, Rank: 2, Phase: corev1.PodRunning, Node: "n1"}),
-		world.MkPod(world.PodOpt{Name: "c0", Group: "c", Shape: world.Shape{GPUs: 1}, Rank: 3}))
-	for i := 0; i < 5; i++ {
-		t := time.Now()
-		r, err := schedrun.RunCycle(w, schedrun.Config{}, nil)
-		if err != nil {
-			panic(err)
-		}
-		fmt.Println(time.Since(t), r.OpenErr)
-		for _, d := range r.Decisions {
+	b, _ := os.ReadFile(os.Args[1])
+	var v struct {
+		Replay struct {
+			World   json.RawMessage `json:"world"`
+			Initial json.RawMessage `json:"initial_world"`
+		} `json:"replay"`
+	}
+	if err := json.Unmarshal(b, &v); err != nil {
+		panic(err)
+	}
+	raw := v.Replay.World
+	if raw == nil {
+		raw = v.Replay.Initial
+	}
+	w, err := world.FromJSON(raw)
+	if err != nil {
+		panic(err)
+	}
+	res, err := schedrun.RunCycle(w, schedrun.Config{}, nil)
+	fmt.Println("err:", err)
+	if res != nil {
+		fmt.Println("openErr:", res.OpenErr)
+		for _, d := range res.Decisions {
 			fmt.Println("  ", d)
 		}
-		if i == 4 {
-			for _, p := range r.After.Pods {
-				fmt.Println(p.Name, p.Status.Phase, p.DeletionTimestamp != nil, p.Status.Conditions)
-			}
-			for _, p := range r.After.BindRequests {
-				fmt.Printf("%+v\n", p.Spec)
-			}
-			for _, p := range r.After.PodGroups {
-				fmt.Printf("%v %+v\n", p.Annotations, p.Status)
-			}
-		}
-	}
-}
-
-func init() {
-	maporder.Set(3)
-	m := map[string]int{"a": 1, "b": 2, "c": 3, "d": 4}
-	for i := 0; i < 3; i++ {
-		for k := range m {
-			fmt.Print(k)
-		}
-		fmt.Println()
+		fmt.Println("PANIC:", res.Panic)
 	}
 }
